@@ -567,9 +567,41 @@ func runC08(r *Runner) string {
 		r.Do("bech32.dec.spec", []string{sx(s)}, "bech32-dec-other-constant-spec", true, "")
 		r.Do("bech32.validate", []string{sx(s)}, "bech32-validate-other-constant", true, "")
 	}
+	// the zero digit '1' inside a string replaced by characters outside the alphabet (a decoder that maps unknown
+	// characters to zero reads the same number)
+	for i := 0; i < r.N(40, 400); i++ {
+		d := r.bytesN(1 + r.rng.Intn(40))
+		for _, enc := range []string{base58.Encode(d), base58check.Encode(d)} {
+			lead := 0
+			for lead < len(enc) && enc[lead] == '1' {
+				lead++
+			}
+			for j := lead; j < len(enc); j++ {
+				if enc[j] == '1' {
+					c := []byte("0OIl+/ _\x00\x7f\xb1")[r.rng.Intn(11)]
+					v := enc[:j] + string([]byte{c}) + enc[j+1:]
+					r.Do("b58.dec", []string{sx(v)}, "b58-dec-zero-digit-replaced", true, "")
+					r.Do("b58c.dec", []string{sx(v)}, "b58c-dec-zero-digit-replaced", true, "")
+					break
+				}
+			}
+		}
+	}
+	// Base58Check strings of 4, 5 and 6 characters without a leading '1' around the value 2^24 (three bytes or
+	// four): too short to hold a checksum, or just long enough
+	for i := 0; i < r.N(120, 1200); i++ {
+		n := 4 + i%3
+		b := []byte(r.fromAlphabet(b58Alphabet, n))
+		b[0] = b58Alphabet[1+i%3] // '2', '3', '4'
+		if i%2 == 0 {
+			b[1] = b58Alphabet[r.rng.Intn(30)]
+		}
+		r.Do("b58c.dec", []string{sx(string(b))}, "b58c-dec-around-3-bytes", true, "")
+		r.Do("b58.dec", []string{sx(string(b))}, "b58-dec-around-3-bytes", true, "")
+	}
 	// characters at and beyond the two ends of the printable range 33..126 inside the human readable part,
 	// under a checksum that is right for exactly that string
-	for _, ch := range []byte{0x20, 0x21, 0x7e, 0x7f, 0x1f, 0x80, 0x00, 0xff, 0x09, 0x0a} {
+	for _, ch := range []byte{0x20, 0x21, 0x7e, 0x7f, 0x1f, 0x80, 0x00, 0xff, 0x09, 0x0a, '@', '[', '\\', ']', '^', '_', '`', '{', '|', '}', '0', '9', ':', '/'} {
 		for pos := 0; pos < 3; pos++ {
 			base := "ab"
 			hrp := base[:pos%3] + string([]byte{ch}) + base[pos%3:]
